@@ -209,10 +209,20 @@ static void must_throw(Report & R, const IoEntry & E, const std::string & bytes,
     }
 }
 
+static long g_caseno = 0;
+static void faults_for_dump(Report & R, const IoEntry & E, bool thorough, long stride, const std::string & D, const std::string & vname, bool foreign);
 static void faults_for(Report & R, const IoEntry & E, bool thorough, long stride)
 {
-    const std::string D = E.dump(0, -1);
-    long caseno = 0;
+    g_caseno = 0;
+    faults_for_dump(R, E, thorough, stride, E.dump(0, -1), "", true);
+    // the same stack holding an EMPTY field (zero stored cells): loaders tend to special-case it
+    if (E.array_width) faults_for_dump(R, E, thorough, stride, E.dump(3, -1), " [empty field]", false);
+}
+static void faults_for_dump(Report & R, const IoEntry & E0, bool thorough, long stride, const std::string & D, const std::string & vname, bool foreign)
+{
+    IoEntry E = E0;
+    E.name = E0.name + vname;
+    long & caseno = g_caseno;
     auto take = [&]() {
         const long me = caseno++;
         if (g_only_caseno >= 0) return me == g_only_caseno;
@@ -265,7 +275,8 @@ static void faults_for(Report & R, const IoEntry & E, bool thorough, long stride
     }
     // (3) written by another stack
     for (auto & W : io_registry()) {
-        if (&W == &E) continue;
+        if (!foreign) break;
+        if (W.name == E0.name) continue;
         const std::string Dw = W.dump(0, -1);
         if (format_parse(Dw, E.fl, E.nlayers).ok) {
             R.counters["format_compatible_pairs_skipped"]++;
